@@ -240,7 +240,7 @@ fn hnd(rng: &mut Rng) -> String {
     rng.pick(&HANDLES).to_string()
 }
 
-fn invocation(rng: &mut Rng) -> String {
+fn invocation(rng: &mut Rng, avoid_own_names: bool) -> String {
     let n_args_mode = rng.below(10); // 0: too few, else normal
     let short = n_args_mode == 0;
     let line = match rng.below(21) {
@@ -259,7 +259,15 @@ fn invocation(rng: &mut Rng) -> String {
         }
         0 | 1 => {
             let n = if short { 0 } else { 1 + rng.usize(3) };
-            format!("unset {}", (0..n).map(|_| rng.pick(&VARNAMES).to_string()).collect::<Vec<_>>().join(" "))
+            // (naming the command's own bookkeeping variables as arguments is part of the listed finding D12: the
+            // script reads and deletes them as its own; generated only when that finding is not listed)
+            format!("unset {}", (0..n).map(|_| if !avoid_own_names && rng.chance(1, 8) { rng.pick(&["scope::unset::arguments", "scope::unset::argument::1", "scope::unset::name"]).to_string() } else {
+                let mut n = rng.pick(&VARNAMES).to_string();
+                if avoid_own_names && n.starts_with("scope::unset::") {
+                    n = "v2".to_string();
+                }
+                n
+            }).collect::<Vec<_>>().join(" "))
         }
         2 => {
             let n = if short { 0 } else { 1 + rng.usize(3) };
@@ -312,19 +320,20 @@ fn invocation(rng: &mut Rng) -> String {
     }
 }
 
-fn burst(rng: &mut Rng) -> Vec<Stmt> {
+fn burst(rng: &mut Rng, avoid_own_names: bool) -> Vec<Stmt> {
     let m = if rng.chance(1, 4) { 5 } else { 2 };
     let n = 1 + rng.usize(m);
     // many times in a row: sometimes the very same line
     let same = rng.chance(1, 3);
-    let first = invocation(rng);
-    (0..n).map(|i| Stmt::Raw(if same || i == 0 { first.clone() } else { invocation(rng) })).collect()
+    let first = invocation(rng, avoid_own_names);
+    (0..n).map(|i| Stmt::Raw(if same || i == 0 { first.clone() } else { invocation(rng, avoid_own_names) })).collect()
 }
 
 fn gen_case(rng: &mut Rng, avoid_scope_names: bool) -> Case {
     let mut main: Vec<Stmt> = vec![];
     // caller context: 10-20 variables, some named like the commands' internals
-    let n_vars = 10 + rng.usize(11);
+    // one run in twenty-five: a caller with more than 64 variables
+    let n_vars = if rng.chance(1, 25) { 65 + rng.usize(20) } else { 10 + rng.usize(11) };
     for i in 0..n_vars {
         let mut name = if i < 4 { format!("v{}", i) } else if rng.chance(1, 4) { rng.pick(&VARNAMES).to_string() } else { format!("w{}", i) };
         if avoid_scope_names && under_some_own_prefix(&name) {
@@ -346,22 +355,22 @@ fn gen_case(rng: &mut Rng, avoid_scope_names: bool) -> Case {
     let n_blocks = 1 + rng.usize(5);
     for b in 0..n_blocks {
         match rng.below(6) {
-            0 | 1 | 2 => main.extend(burst(rng)),
-            3 => main.push(Stmt::ForIn { var: "i0".to_string(), arr: ArrRef::Inline(vec!["1".to_string(), "2".to_string()]), body: burst(rng), sp: rng.next_u64() as u32, id: b as u32 }),
+            0 | 1 | 2 => main.extend(burst(rng, avoid_scope_names)),
+            3 => main.push(Stmt::ForIn { var: "i0".to_string(), arr: ArrRef::Inline(vec!["1".to_string(), "2".to_string()]), body: burst(rng, avoid_scope_names), sp: rng.next_u64() as u32, id: b as u32 }),
             4 => {
-                main.push(Stmt::While { cond: Cond::Cnd { site: n_cnd, negate: false }, body: burst(rng), sp: rng.next_u64() as u32 });
+                main.push(Stmt::While { cond: Cond::Cnd { site: n_cnd, negate: false }, body: burst(rng, avoid_scope_names), sp: rng.next_u64() as u32 });
                 n_cnd += 1;
             }
             _ => {
                 if use_fn {
                     main.push(Stmt::Call { out: None, f: "f0".to_string(), args: vec!["a".to_string()], show: false });
                 } else {
-                    main.push(Stmt::If { branches: vec![(Cond::Val("true".to_string()), burst(rng))], els: None, sp: rng.next_u64() as u32 });
+                    main.push(Stmt::If { branches: vec![(Cond::Val("true".to_string()), burst(rng, avoid_scope_names))], els: None, sp: rng.next_u64() as u32 });
                 }
             }
         }
     }
-    let fns = if use_fn { vec![FnDef { name: "f0".to_string(), scoped: false, body: burst(rng), sp: rng.next_u64() as u32 }] } else { vec![] };
+    let fns = if use_fn { vec![FnDef { name: "f0".to_string(), scoped: false, body: burst(rng, avoid_scope_names), sp: rng.next_u64() as u32 }] } else { vec![] };
     let cnd = (0..n_cnd).map(|_| (0..1 + rng.usize(2)).map(|_| true).collect()).collect();
     let nested = if rng.chance(2, 3) { (0..1 + rng.usize(3)).map(|_| (rng.below(8) as u32, rng.below(14) as u32)).collect() } else { vec![] };
     Case { entropy: rng.next_u64(), program: Program { fns, arrays: vec![], main, cnd, fail_leaf: vec![], forever: false }, nested }
@@ -460,6 +469,17 @@ impl Prop for C19 {
         match matcher {
             // the caller context defines a variable under some command's scope prefix AND that is what was lost
             "caller_variable_named_scope" => {
+                fn names_own(stmts: &[Stmt]) -> bool {
+                    stmts.iter().any(|s| match s {
+                        Stmt::Raw(l) => l.contains("unset ") && l.contains("scope::unset::"),
+                        Stmt::If { branches, els, .. } => branches.iter().any(|(_, b)| names_own(b)) || els.as_ref().map(|e| names_own(e)).unwrap_or(false),
+                        Stmt::While { body, .. } | Stmt::ForIn { body, .. } => names_own(body),
+                        _ => false,
+                    })
+                }
+                if names_own(&case.program.main) || case.program.fns.iter().any(|f| names_own(&f.body)) {
+                    return true;
+                }
                 class == "caller-variable-under-scope-prefix-lost"
                     && case.program.main.iter().any(|s| matches!(s, Stmt::Raw(l) if l.starts_with("scope::") && under_some_own_prefix(l.split(' ').next().unwrap_or(""))))
             }
